@@ -272,8 +272,8 @@ HARNESSES += [
     win("win_argv_join", "WIN_argv_join",
         "real argv_join with argument_escaped_size / argument_escape replaced by their contracts: the buffer has room for "
         "every argument (precondition of argument_escape at each call site), single spaces between, NUL at the exact end",
-        "at most 2 (quick) / 3 (thorough) arguments; argument sizes symbolic up to 2*len+2",
-        {"VERIF_ARGLEN": "4", "VERIF_NARGS": "2"}, {"VERIF_ARGLEN": "6", "VERIF_NARGS": "3"}, 8, 10,
+        "at most 3 (quick) / 4 (thorough) arguments; argument sizes symbolic up to 2*len+2",
+        {"VERIF_ARGLEN": "4", "VERIF_NARGS": "3"}, {"VERIF_ARGLEN": "6", "VERIF_NARGS": "4"}, 12, 18,
         replace=["argument_escaped_size", "argument_escape"]),
     win("win_env_block", "WIN_env",
         "real env_join_size / env_join: entries in order, each NUL-terminated, closed by a final NUL, size exact",
